@@ -260,6 +260,10 @@ class _InstallWrapper(IpcCommand):
         self.parse_install_options()
         return args
 
+    def _allowed_file(self, path):
+        """Determine if a file found in a directory target is allowed to be installed."""
+        return True
+
     def parse_install_options(self):
         """Parse install command options."""
         self.insoptions = arghparse.Namespace()
@@ -341,6 +345,9 @@ class _InstallWrapper(IpcCommand):
                         if os.path.islink(source):
                             dest = pjoin(dest_dir, dirname)
                             self.install_symlinks([(source, dest)])
+                    filenames = [
+                        f for f in filenames if self._allowed_file(pjoin(dirpath, f))
+                    ]
                     if filenames:
                         self.install(
                             (pjoin(dirpath, f), pjoin(dest_dir, f)) for f in filenames
